@@ -160,8 +160,8 @@ def run_task(task):
         if status == "budget":
             # non-termination candidate: report with the path's model
             try:
-                if ex.check() == z3.sat:
-                    pmodel = model_to_dict(ex.get_model(), ctx.vars)
+                pmodel = ctx.path_model()
+                if pmodel is not None:
                     ctx.violations.append(core.Violation("nontermination", "path exceeded its step/time budget",
                                                          pmodel, list(ex.script), ctx.path_index))
             except Exception:
@@ -177,25 +177,22 @@ def run_task(task):
         # cross-validate this path against the unpatched implementation
         if status == "ok" and not ctx.violations and canary is None and stride and (res["paths"] - 1) % stride == 0:
             try:
-                r = ex.check()
-                if r == z3.sat:
-                    pmodel = model_to_dict(ex.get_model(), ctx.vars)
-                    if not any(v.startswith(("alg:", "?")) for v in pmodel.values()):
-                        c = run_conc(hname, params, pmodel, list(ex.script), alarm=path_alarm)
-                        res["xval"] += 1
-                        if c["status"] != "ok" or _canon(c["outcome"]) != _canon(outcome):
-                            res["xval_mismatch"].append({"model": pmodel, "script": list(ex.script),
-                                                         "sym": _canon(outcome), "conc": c})
-                elif r == z3.unknown:
-                    res["inconclusive"].append("path model unknown")
+                pmodel = ctx.path_model()
+                if pmodel is not None and not any(v.startswith(("alg:", "?")) for v in pmodel.values()):
+                    c = run_conc(hname, params, pmodel, list(ex.script), alarm=path_alarm)
+                    res["xval"] += 1
+                    if c["status"] != "ok" or _canon(c["outcome"]) != _canon(outcome):
+                        res["xval_mismatch"].append({"model": pmodel, "script": list(ex.script),
+                                                     "sym": _canon(outcome), "conc": c})
+                else:
+                    res["xval_skipped"] = res.get("xval_skipped", 0) + 1
             except Inconclusive as e:
                 res["inconclusive"].append(str(e))
         if len(res["samples"]) < 3 and status == "ok":
             if pmodel is None:
                 try:
-                    if ex.check() == z3.sat:
-                        pmodel = model_to_dict(ex.get_model(), ctx.vars)
-                except Exception:
+                    pmodel = ctx.path_model()
+                except BaseException:
                     pass
             res["samples"].append({"model": pmodel, "script": list(ex.script), "outcome": _canon(outcome)})
         res["queries"] += ex.queries
